@@ -1242,7 +1242,7 @@ func (n *nodeSim) isRetained(tr *btrack) bool {
 
 func simWorkerHarnesses() []*simk.Harness {
 	return []*simk.Harness{{Name: "node", Gen: genNodeCase, Run: runNodeCase}, {Name: "store", Gen: genStoreCase, Run: runStoreCase},
-		{Name: "local", Gen: genLocalCase, Run: runLocalCase}}
+		{Name: "local", Gen: genLocalCase, Run: runLocalCase}, {Name: "idburst", Gen: genIDBurstCase, Run: runIDBurstCase}}
 }
 
 func TestSimWorker(t *testing.T) {
